@@ -505,3 +505,64 @@ func nonNilAt(v ssa.Value, b *ssa.BasicBlock, depth int) int {
 	}
 	return 0
 }
+
+// fmtConstRule: text taken from a statement never serves as a format string.
+func fmtConstRule(c *Ctx, rule string) {
+	p := c.P
+	c.Rule(rule, "every call of fmt.Sprintf, Fprintf, Errorf (and the other f-functions) in the package has a constant format string: text that comes from a statement (a printed expression, a condition) used as the format is re-interpreted — a `%` in it (the modulo operator, a LIKE-style string) swallows the next argument or prints as %!x(MISSING), so the printed statement no longer parses or means something else")
+	n := 0
+	var visit func(fn *ssa.Function)
+	visit = func(fn *ssa.Function) {
+		ord := 0
+		for _, b := range fn.Blocks {
+			for _, in := range b.Instrs {
+				call, ok := in.(*ssa.Call)
+				if !ok {
+					continue
+				}
+				cal := call.Call.StaticCallee()
+				if cal == nil || cal.Pkg == nil || cal.Pkg.Pkg.Path() != "fmt" {
+					continue
+				}
+				idx := -1
+				switch cal.Name() {
+				case "Sprintf", "Errorf", "Printf":
+					idx = 0
+				case "Fprintf":
+					idx = 1
+				default:
+					continue
+				}
+				ord++
+				n++
+				key := fmt.Sprintf("%s: fmt.%s #%d", ssaFuncName(fn), cal.Name(), ord)
+				allConst := func(v ssa.Value) bool {
+					if k, ok := v.(*ssa.Const); ok {
+						return k.Value != nil
+					}
+					if ph, ok := v.(*ssa.Phi); ok {
+						for _, e := range ph.Edges {
+							if k, ok := e.(*ssa.Const); !ok || k.Value == nil {
+								return false
+							}
+						}
+						return len(ph.Edges) > 0
+					}
+					return false
+				}
+				if allConst(call.Call.Args[idx]) {
+					c.OK(rule, key, call.Pos(), "constant format")
+				} else {
+					c.Bad(rule, key, call.Pos(), "the format string is computed at run time: any `%` in the text it is built from is taken as a verb")
+				}
+			}
+		}
+		for _, an := range fn.AnonFuncs {
+			visit(an)
+		}
+	}
+	for _, fn := range p.SrcFuncs() {
+		visit(fn)
+	}
+	c.Floor(rule, n, 60)
+}
